@@ -42,6 +42,8 @@ OUTCOMES = {
     'forward-fragmented': dict(rx=[['^dtn://dst/', 'forward']], tx=[dict(pattern='^dtn://dst/', mtu=270)], dest='dtn://dst/app',
                                extra=dict(payload_hex=BIG)),
     'forward-fragmentation-infeasible': dict(rx=[['^dtn://dst/', 'forward']], tx=[dict(pattern='^dtn://dst/', mtu=30)], dest='dtn://dst/app'),
+    'forward-nonpayload-part-exceeds-mtu': dict(rx=[['^dtn://dst/', 'forward']], tx=[dict(pattern='^dtn://dst/', mtu=256)], dest='dtn://dst/app',
+                                                extra=dict(blocks=[dict(type=192, num=7, data_hex=('5A' * 300))])),
     'forward-must-not-fragment': dict(rx=[['^dtn://dst/', 'forward']], tx=[dict(pattern='^dtn://dst/', mtu=30)], dest='dtn://dst/app',
                                       extra_flags=B.FLAG_NO_FRAGMENT),
     'forward-no-tx-route': dict(rx=[['^dtn://dst/', 'forward']], tx=[], dest='dtn://dst/app'),
